@@ -187,8 +187,8 @@ KEY = {
                  ("short", "abc")],
 }
 VERSION = {
-    "quick": [("13", "13"), ("8", "8"), ("12", "12"), ("absent", None)],
-    "thorough": [("13", "13"), ("8", "8"), ("7", "7"), ("12", "12"), ("absent", None)],
+    "quick": [("13", "13"), ("8", "8"), ("12", "12"), ("absent", None), ("1", "1")],
+    "thorough": [("13", "13"), ("8", "8"), ("7", "7"), ("12", "12"), ("absent", None), ("1", "1"), ("3", "3"), ("130", "130")],
 }
 ORIGIN_T = {
     "quick": ["none", "same", "same-upper", "other-host", "suffix-host", "other-port",
@@ -639,7 +639,8 @@ C_SUBRESP = {
 C_SUBOFFER = [None, ["chat"], ["chat", "superchat"], ["superchat"]]
 C_EXTRESP = {
     "quick": [("absent", None), ("pmd", PMD), ("pmd;cmwb=10", PMD + "; client_max_window_bits=10"),
-              ("unknown", "x-webkit-deflate-frame"), ("pmd;cmwb=7", PMD + "; client_max_window_bits=7")],
+              ("unknown", "x-webkit-deflate-frame"), ("pmd;cmwb=7", PMD + "; client_max_window_bits=7"),
+              ("pmd,unknown", PMD + ", x-foo")],
     "thorough": [("absent", None), ("pmd", PMD), ("pmd;cmwb=10", PMD + "; client_max_window_bits=10"),
                  ("pmd;smwb=10", PMD + "; server_max_window_bits=10"),
                  ("unknown", "x-webkit-deflate-frame"), ("pmd,unknown", PMD + ", x-foo"),
